@@ -2,7 +2,7 @@
 
    <enabled> <time> <timeout> <permit> <maxp> <minint> <t0> <event>*
        times in ticks of 2^-20 s (decimal), flags 0|1
-       event = T:<t>:<incl>:<close_first> | A | D | H | O | C | L
+       event = T:<t>:<incl>:<close_first> | A | D | H | O | C | L | R (Connection.ack)
    answer: one word per event   <items>|<pcount>,<opens>,<ping_timer>,<close_timer>,<last_ping>,<closed>
        items = '-' or comma separated  P@t (PING sent)  S@t (ping timer fired, ping suppressed)
                X@t (close timer closed the connection); inputs are not echoed
@@ -14,7 +14,7 @@ let parse_ev w =
   match String.split_on_char ':' w with
   | ["T"; t; i; c] -> Tick (z_of_int (int_of_string t), bool_of_word i, bool_of_word c)
   | ["A"] -> Ack | ["D"] -> DataSent | ["H"] -> HeadersSent
-  | ["O"] -> StreamOpened | ["C"] -> StreamClosed | ["L"] -> Lost
+  | ["O"] -> StreamOpened | ["C"] -> StreamClosed | ["L"] -> Lost | ["R"] -> Acked
   | _ -> failwith ("event " ^ w)
 
 let show_opt = function None -> "-" | Some z -> string_of_int (int_of_z z)
